@@ -539,12 +539,12 @@ Proof.
   - cbn [wrap_dotted length Nat.sub dis_depth]. destruct first; [reflexivity|].
     destruct x; reflexivity.
   - change (wrap_dotted first (c :: c2 :: rest) (set_dis x))
-      with (Scp (mkhdr c false 0 (negb first) 0 0) [wrap_dotted false (c2 :: rest) (set_dis x)] []).
+      with (Scp (mkhdr c false 0 (negb first) (opid (ohdr (set_dis x))) 0) [wrap_dotted false (c2 :: rest) (set_dis x)] []).
     change (wrap_dotted first (c :: c2 :: rest) x)
-      with (Scp (mkhdr c false 0 (negb first) 0 0) [wrap_dotted false (c2 :: rest) x] []).
+      with (Scp (mkhdr c false 0 (negb first) (opid (ohdr x)) 0) [wrap_dotted false (c2 :: rest) x] []).
     rewrite IH.
     replace (length (c :: c2 :: rest) - 1) with (S (length (c2 :: rest) - 1)) by (cbn [length]; lia).
-    reflexivity.
+    destruct x; reflexivity.
 Qed.
 
 Lemma adopt_dis : forall x,
@@ -1081,10 +1081,10 @@ Proof.
   destruct rest as [|c2 rest].
   - cbn [wrap_dotted]. destruct first; [reflexivity|]. destruct x; reflexivity.
   - change (wrap_dotted first (c :: c2 :: rest) x)
-      with (Scp (mkhdr c false 0 (negb first) 0 0) [wrap_dotted false (c2 :: rest) x] []).
+      with (Scp (mkhdr c false 0 (negb first) (opid (ohdr x)) 0) [wrap_dotted false (c2 :: rest) x] []).
     change (wrap_dotted first (c :: c2 :: rest) (erase_lines x))
-      with (Scp (mkhdr c false 0 (negb first) 0 0) [wrap_dotted false (c2 :: rest) (erase_lines x)] []).
-    cbn [erase_lines map]. rewrite IH. reflexivity.
+      with (Scp (mkhdr c false 0 (negb first) (opid (ohdr (erase_lines x))) 0) [wrap_dotted false (c2 :: rest) (erase_lines x)] []).
+    cbn [erase_lines map]. rewrite IH. destruct x; reflexivity.
 Qed.
 Lemma erase_adopt : forall x, erase_lines (adopt x) = adopt (erase_lines x).
 Proof.
